@@ -381,7 +381,10 @@ class StrV:
         return 'Str(%r)' % (self.chars,)
 
     def __eq__(self, o):
-        return isinstance(o, StrV) and self.chars == o.chars
+        if not isinstance(o, StrV) or len(self.chars) != len(o.chars):
+            return False
+        n = lambda c: c if isinstance(c, str) else (chr(c.val) if isinstance(c, BV) and c.val is not None else c)
+        return [n(c) for c in self.chars] == [n(c) for c in o.chars]
 
     def __hash__(self):
         return hash(len(self.chars))
